@@ -196,3 +196,64 @@ pub fn unhex(s: &str) -> Vec<u8> {
         .filter_map(|i| u8::from_str_radix(&s[2 * i..2 * i + 2], 16).ok())
         .collect()
 }
+
+/// Round-based parallel tape shrinker: every round evaluates up to `width`
+/// one-step reductions of the current tape in parallel and keeps the smallest
+/// one that still fails; stops at a fixpoint or after `rounds`.
+pub fn shrink_tape_par<F>(tape: &[u8], rounds: usize, width: usize, threads: usize, still_fails: F) -> Vec<u8>
+where
+    F: Fn(&[u8]) -> bool + Sync,
+{
+    let mut cur = tape.to_vec();
+    let weight = |t: &[u8]| (t.len(), t.iter().map(|b| *b as usize).sum::<usize>());
+    for _ in 0..rounds {
+        let n = cur.len();
+        let mut cands: Vec<Vec<u8>> = vec![];
+        let mut span = (n / 2).max(1);
+        while span >= 1 && n > 0 {
+            let mut i = 0;
+            while i + span <= n && cands.len() < width / 2 {
+                let mut c = cur.clone();
+                c.drain(i..i + span);
+                cands.push(c);
+                i += span;
+            }
+            if span == 1 {
+                break;
+            }
+            span /= 2;
+        }
+        for i in 0..n {
+            if cands.len() >= width {
+                break;
+            }
+            if cur[i] != 0 {
+                let mut c = cur.clone();
+                c[i] = 0;
+                cands.push(c);
+                if cur[i] > 1 && cands.len() < width {
+                    let mut c = cur.clone();
+                    c[i] = cur[i] / 2;
+                    cands.push(c);
+                }
+            }
+        }
+        cands.sort();
+        cands.dedup();
+        if cands.is_empty() {
+            break;
+        }
+        let res = crate::core::par_map(&cands, threads, |_, c| still_fails(c));
+        let mut best: Option<&Vec<u8>> = None;
+        for (c, ok) in cands.iter().zip(res) {
+            if ok && weight(c) < weight(&cur) && best.map_or(true, |b| weight(c) < weight(b)) {
+                best = Some(c);
+            }
+        }
+        match best {
+            Some(b) => cur = b.clone(),
+            None => break,
+        }
+    }
+    cur
+}
